@@ -3,3 +3,4 @@ import Drv.Topic
 import Drv.Session
 import Drv.Broker
 import Drv.BaseConn
+import Drv.Stream
